@@ -36,6 +36,8 @@ func (f *mpFam) Setup(cfg M, rng *rand.Rand) {
 		{" ", ".", "/"},
 		{"A", "a", "/"},
 		{"\x00", "\xff\xfe", "/"},
+		{"%", "%s", "/"},  // segments that are printf verbs
+		{"%d", "\\", "/"}, // and a backslash
 	}
 	f.cur = -1
 	// names whose sha256 hex digest starts with "00", "0", "f", "a0", ends with "0", starts with a decimal digit other than 0
@@ -93,7 +95,7 @@ func (f *mpFam) postChain(segs []string) []string {
 	return out
 }
 
-// SetScenarioIndex selects the alphabet mapping: scenario i uses mapping i mod 6 (also across separate vh processes).
+// SetScenarioIndex selects the alphabet mapping: scenario i uses mapping i mod 8 (also across separate vh processes).
 func (f *mpFam) SetScenarioIndex(i int) { f.cur = i - 1 }
 
 func (f *mpFam) Reset() M {
